@@ -2475,10 +2475,9 @@ class FuncLowerer:
     def s_DoStmt(self, s):
         body, cond = self.kids(s)
         lc = self.loop_contract()
-        out = ['do'] + self.block(body)
-        out.append('while (%s)' % self.rv(cond))
-        out.extend(indent(lc))
-        out.append(';')
+        # CBMC's grammar places the contract clauses of a do-while right after `do`
+        out = ['do'] + indent(lc) + self.block(body)
+        out.append('while (%s);' % self.rv(cond))
         return out
 
     def s_ForStmt(self, s):
